@@ -316,6 +316,10 @@ impl BufferManager {
                 continue;
             }
 
+            // verif-hooks (H1): scheduling point between the limit check and the update
+            #[cfg(feature = "verif-hooks")]
+            crate::verif_hooks::yield_point("buffer_manager.try_reserve.check->cas");
+
             match self.allocated.compare_exchange(
                 current,
                 current + size,
